@@ -5,7 +5,7 @@
    treated over Coq's Reals in Geometry/ComReals.v (arctan2 characterised by its defining relation). *)
 From Coq Require Import ZArith QArith Qabs List Bool Reals.
 Import ListNotations.
-From MV Require Import Geometry.Frame Geometry.FrameProofs Geometry.ComReals.
+From MV Require Import Geometry.Frame Geometry.FrameProofs Geometry.ComReals Geometry.ComInterval.
 Open Scope Q_scope.
 
 (* to_scaled and to_cartesian are mutual inverses for every non-singular cell *)
@@ -143,3 +143,23 @@ Print Assumptions C20_com_rel_unique_mod_1.
 Example C20_is_com_rel_example : is_com_rel [3; 1]%R [0; / 2]%R 0%R.
 Proof. exact is_com_rel_example. Qed.
 Print Assumptions C20_is_com_rel_example.
+
+(* the executable checker the correspondence applies to every returned periodic centre of mass is sound: acceptance means
+   that 2 pi r is EXACTLY an angle of a resultant within eps (per component) of the true one (backward error).
+   Interval arithmetic of CoqInterval; Print Assumptions lists the standard-library axioms of the Reals and classical logic. *)
+Definition C20_backward_error (ms ss : list Q) (r eps : Q) : Prop :=
+  exists e1 e2 : R,
+    and (Rle (Rabs e1) (Q2R eps))
+      (and (Rle (Rabs e2) (Q2R eps))
+         (com_angle (Rplus (xi (Rl ms) (Rl ss)) e1) (Rplus (zeta (Rl ms) (Rl ss)) e2) (Rmult (Rmult 2%R PI) (Q2R r)))).
+Theorem C20_com_checker_sound :
+  forall (ms ss : list Q) (r eps : Q), com_check ms ss r eps = true -> C20_backward_error ms ss r eps.
+Proof. exact com_check_sound. Qed.
+Print Assumptions C20_com_checker_sound.
+
+Example C20_com_checker_accepts : com_check [3; 1]%Q [0; 1 # 2]%Q 0%Q (1 # 1000000000)%Q = true.
+Proof. exact com_check_accepts. Qed.
+Print Assumptions C20_com_checker_accepts.
+Example C20_com_checker_rejects_opposite : com_check [3; 1]%Q [0; 1 # 2]%Q (1 # 2)%Q (1 # 1000000000)%Q = false.
+Proof. exact com_check_rejects_opposite. Qed.
+Print Assumptions C20_com_checker_rejects_opposite.
